@@ -1,2 +1,1114 @@
-(* C05_Proofs.v - placeholder, being written *)
+(* C05_Proofs.v — lemmas and proofs for C05_Props.v *)
+From Coq Require Import Lia Permutation.
 From V Require Export C05_Spec.
+Open Scope N_scope.
+
+(* ====================================================================== *)
+(* A. the batches partition the selection                                  *)
+(* ====================================================================== *)
+Lemma inst_eqb_eq a b : inst_eqb a b = true <-> a = b.
+Proof.
+  destruct a as [p v t c], b as [p' v' t' c']; unfold inst_eqb; simpl.
+  rewrite !andb_true_iff, !N.eqb_eq, !Bool.eqb_true_iff. split.
+  - intros [[[-> ->] ->] ->]; reflexivity.
+  - intros E; inversion E; auto.
+Qed.
+
+Lemma inst_eqb_refl a : inst_eqb a a = true.
+Proof. apply inst_eqb_eq; reflexivity. Qed.
+
+Lemma mem_inst_in g l : mem_inst g l = true <-> In g l.
+Proof.
+  induction l as [|h t IH]; simpl; [split; [discriminate|tauto]|].
+  rewrite orb_true_iff, IH, inst_eqb_eq. split; intros [H|H]; auto.
+Qed.
+
+Lemma keep_supported c s tc : (c || s = true) -> grpc_keep c s tc = grpc_supported c s tc.
+Proof.
+  unfold grpc_keep, grpc_supported. intros _.
+  destruct (tc_proto tc =? 1); simpl; [rewrite orb_true_r; reflexivity|]. rewrite orb_false_r.
+  destruct c; simpl.
+  - destruct (tc_proto tc =? 2); simpl; [|reflexivity].
+    destruct (tc_proto tc =? 3); simpl.
+    + destruct ((tc_ver tc =? 1) || (tc_ver tc =? 2)); simpl; [|reflexivity].
+      destruct (tc_codec tc =? 1); simpl; [|reflexivity].
+      destruct (tc_comp tc =? 1), (tc_comp tc =? 2); simpl; try reflexivity;
+      destruct (tc_tls tc); simpl; try reflexivity;
+      destruct (is_some (tc_raw tc)); simpl; try reflexivity;
+      destruct s, (tc_rawresp tc); reflexivity.
+    + destruct (tc_ver tc =? 2); simpl; [|reflexivity].
+      destruct (tc_codec tc =? 1); simpl; [|reflexivity].
+      destruct (tc_comp tc =? 1), (tc_comp tc =? 2); simpl; try reflexivity;
+      destruct (tc_tls tc); simpl; try reflexivity;
+      destruct (is_some (tc_raw tc)); simpl; try reflexivity;
+      destruct s, (tc_rawresp tc); reflexivity.
+  - destruct (tc_proto tc =? 3); simpl.
+    + destruct ((tc_ver tc =? 1) || (tc_ver tc =? 2)); simpl; [|reflexivity].
+      destruct (tc_codec tc =? 1); simpl; [|reflexivity].
+      destruct (tc_comp tc =? 1), (tc_comp tc =? 2); simpl; try reflexivity;
+      destruct (tc_tls tc); simpl; try reflexivity;
+      rewrite ?andb_false_r; simpl;
+      destruct s, (tc_rawresp tc); reflexivity.
+    + destruct (tc_ver tc =? 2); simpl; [|reflexivity].
+      destruct (tc_codec tc =? 1); simpl; [|reflexivity].
+      destruct (tc_comp tc =? 1), (tc_comp tc =? 2); simpl; try reflexivity;
+      destruct (tc_tls tc); simpl; try reflexivity;
+      rewrite ?andb_false_r; simpl;
+      destruct s, (tc_rawresp tc); reflexivity.
+Qed.
+
+Lemma batch_cases_flat lib sel c s g :
+  batch_cases lib sel c s g = flat_map (select_one sel c s) (group lib g).
+Proof.
+  unfold batch_cases, apply_filter, filter_grpc, select_one, variant.
+  destruct (negb (p_grpc c) && negb (p_grpc s)) eqn:E.
+  - induction (group lib g) as [|tc l IH]; simpl; [reflexivity|].
+    rewrite IH. destruct (sel (tc_name tc)); reflexivity.
+  - assert (O : p_grpc c || p_grpc s = true) by (destruct (p_grpc c), (p_grpc s); simpl in *; congruence).
+    induction (group lib g) as [|tc l IH]; simpl; [reflexivity|].
+    rewrite <- keep_supported by exact O.
+    destruct (grpc_keep (p_grpc c) (p_grpc s) tc); simpl; [|exact IH].
+    match goal with |- context [sel ?x] => destruct (sel x) end; simpl; rewrite IH; reflexivity.
+Qed.
+
+Lemma filter_disjoint_app {A} (p q : A -> bool) l :
+  (forall x, In x l -> p x = true -> q x = false) ->
+  Permutation (filter p l ++ filter q l) (filter (fun x => p x || q x) l).
+Proof.
+  induction l as [|x l IH]; intros D; simpl; [constructor|].
+  assert (D' : forall y, In y l -> p y = true -> q y = false) by (intros; apply D; simpl; auto).
+  specialize (IH D'). destruct (p x) eqn:P; simpl.
+  - rewrite (D x (or_introl eq_refl) P). constructor. exact IH.
+  - destruct (q x); [|exact IH].
+    apply Permutation_sym, Permutation_cons_app, Permutation_sym. exact IH.
+Qed.
+
+Lemma group_partition_gen lib order :
+  NoDup order ->
+  Permutation (flat_map (group lib) order) (filter (fun tc => mem_inst (inst_of tc) order) lib).
+Proof.
+  induction order as [|g order IH]; intros ND; simpl.
+  - induction lib; simpl; auto.
+  - inversion ND as [|? ? NI ND']; subst.
+    eapply Permutation_trans; [apply Permutation_app_head, IH, ND'|].
+    unfold group at 1.
+    eapply Permutation_trans; [apply filter_disjoint_app|].
+    + intros tc _ E. apply inst_eqb_eq in E. subst g.
+      destruct (mem_inst (inst_of tc) order) eqn:M; [|reflexivity].
+      apply mem_inst_in in M. contradiction.
+    + apply Permutation_refl.
+Qed.
+
+Lemma filter_all {A} (p : A -> bool) l : (forall x, In x l -> p x = true) -> filter p l = l.
+Proof.
+  induction l as [|x l IH]; intros H; simpl; [reflexivity|].
+  rewrite (H x (or_introl eq_refl)), IH; [reflexivity|]. intros; apply H; simpl; auto.
+Qed.
+
+Lemma group_partition lib order :
+  NoDup order -> (forall tc, In tc lib -> In (inst_of tc) order) ->
+  Permutation (flat_map (group lib) order) lib.
+Proof.
+  intros ND C. eapply Permutation_trans; [apply group_partition_gen, ND|].
+  rewrite filter_all; [apply Permutation_refl|]. intros tc H. apply mem_inst_in, C, H.
+Qed.
+
+Lemma flat_map_flat_map {A B C} (f : B -> list C) (g : A -> list B) l :
+  flat_map f (flat_map g l) = flat_map (fun x => flat_map f (g x)) l.
+Proof. induction l; simpl; [reflexivity|]. rewrite flat_map_app, IHl. reflexivity. Qed.
+
+Lemma phase_inner lib sel order ph c s :
+  concat (map b_cases (flat_map (fun g =>
+      match batch_cases lib sel c s g with
+      | [] => []
+      | cs => [mkBatch ph c.(p_ref) s.(p_ref) g cs]
+      end) order))
+  = flat_map (fun g => batch_cases lib sel c s g) order.
+Proof.
+  induction order as [|g order IHo]; simpl; [reflexivity|].
+  rewrite map_app, concat_app, IHo.
+  destruct (batch_cases lib sel c s g); simpl; [reflexivity|]. rewrite app_nil_r. reflexivity.
+Qed.
+
+Lemma phase_cases lib sel order servers ph c :
+  concat (map b_cases (plan_phase lib sel order servers ph c))
+  = flat_map (fun s => flat_map (fun g => batch_cases lib sel c s g) order) servers.
+Proof.
+  unfold plan_phase. induction servers as [|s servers IH]; simpl; [reflexivity|].
+  rewrite map_app, concat_app, IH, phase_inner. reflexivity.
+Qed.
+
+Lemma plan_from_cases lib sel order servers clients : forall ph,
+  NoDup order -> (forall tc, In tc lib -> In (inst_of tc) order) ->
+  Permutation (concat (map b_cases (plan_from lib sel order servers ph clients)))
+              (selected lib sel clients servers).
+Proof.
+  induction clients as [|c clients IH]; intros ph ND C; simpl; [constructor|].
+  rewrite map_app, concat_app. apply Permutation_app; [|apply IH; assumption].
+  rewrite phase_cases. clear IH.
+  induction servers as [|s servers IHs]; simpl; [constructor|].
+  apply Permutation_app; [|exact IHs].
+  erewrite flat_map_ext; [|intros g; apply batch_cases_flat].
+  rewrite <- flat_map_flat_map. apply Permutation_flat_map, group_partition; assumption.
+Qed.
+
+Lemma partition_proof lib sel order clients servers :
+  NoDup order -> (forall tc, In tc lib -> In (inst_of tc) order) ->
+  Permutation (concat (map b_cases (plan lib sel order clients servers)))
+              (selected lib sel clients servers).
+Proof. apply plan_from_cases. Qed.
+
+(* the two orders run() uses satisfy the hypotheses *)
+Lemma instances_from_spec lib : forall seen,
+  NoDup (instances_from seen lib) /\
+  (forall g, In g (instances_from seen lib) <-> In g (map inst_of lib) /\ ~ In g seen).
+Proof.
+  induction lib as [|tc lib IH]; intros seen; simpl.
+  - split; [constructor|]. intros g; tauto.
+  - destruct (mem_inst (inst_of tc) seen) eqn:M.
+    + destruct (IH seen) as [ND S]. split; [exact ND|].
+      intros g. rewrite S. apply mem_inst_in in M. split; [tauto|].
+      intros [[<-|H] N]; [contradiction|tauto].
+    + destruct (IH (inst_of tc :: seen)) as [ND S]. split.
+      * constructor; [|exact ND]. rewrite S. simpl. tauto.
+      * intros g. simpl. rewrite S. simpl.
+        assert (NM : ~ In (inst_of tc) seen) by (intros H; apply mem_inst_in in H; congruence).
+        split.
+        -- intros [<-|[H N]]; [tauto|tauto].
+        -- intros [[<-|H] N]; [tauto|].
+           destruct (inst_eqb (inst_of tc) g) eqn:E; [apply inst_eqb_eq in E; auto|].
+           right. split; [exact H|]. intros [E'|E']; [|contradiction].
+           rewrite E', inst_eqb_refl in E. discriminate.
+Qed.
+
+Lemma instances_ok_proof lib :
+  NoDup (instances lib) /\ forall tc, In tc lib -> In (inst_of tc) (instances lib).
+Proof.
+  destruct (instances_from_spec lib []) as [ND S]. split; [exact ND|].
+  intros tc H. apply S. split; [apply in_map, H|tauto].
+Qed.
+
+Lemma insert_inst_perm x l : Permutation (insert_inst x l) (x :: l).
+Proof.
+  induction l as [|y l IH]; simpl; [constructor; constructor|].
+  destruct (inst_less x y); [apply Permutation_refl|].
+  eapply Permutation_trans; [apply perm_skip, IH|]. apply perm_swap.
+Qed.
+
+Lemma sort_insts_perm l : Permutation (sort_insts l) l.
+Proof.
+  induction l as [|x l IH]; simpl; [constructor|].
+  eapply Permutation_trans; [apply insert_inst_perm|]. constructor. exact IH.
+Qed.
+
+Lemma sorted_ok_proof lib :
+  NoDup (sort_insts (instances lib)) /\ forall tc, In tc lib -> In (inst_of tc) (sort_insts (instances lib)).
+Proof.
+  destruct (instances_ok_proof lib) as [ND C]. split.
+  - eapply Permutation_NoDup; [apply Permutation_sym, sort_insts_perm|exact ND].
+  - intros tc H. eapply Permutation_in; [apply Permutation_sym, sort_insts_perm|]. apply C, H.
+Qed.
+
+(* every batch holds only permutations of its own server instance, and is not empty *)
+Lemma rename_inst c s tc : inst_of (rename c s tc) = inst_of tc.
+Proof. reflexivity. Qed.
+
+Lemma batch_cases_inst lib sel c s g tc : In tc (batch_cases lib sel c s g) -> inst_of tc = g.
+Proof.
+  unfold batch_cases, apply_filter, filter_grpc, group. intros H.
+  apply filter_In in H. destruct H as [H _].
+  destruct (negb (p_grpc c) && negb (p_grpc s)).
+  - apply filter_In in H. destruct H as [_ E]. apply inst_eqb_eq, E.
+  - apply in_map_iff in H. destruct H as (tc0 & <- & H).
+    apply filter_In in H. destruct H as [H _]. apply filter_In in H. destruct H as [_ E].
+    rewrite rename_inst. apply inst_eqb_eq, E.
+Qed.
+
+Lemma plan_phase_match lib sel order servers ph c b :
+  In b (plan_phase lib sel order servers ph c) ->
+  b.(b_cases) <> [] /\ forall tc, In tc b.(b_cases) -> inst_of tc = b.(b_inst).
+Proof.
+  unfold plan_phase. intros H. apply in_flat_map in H. destruct H as (s & _ & H).
+  apply in_flat_map in H. destruct H as (g & _ & H).
+  destruct (batch_cases lib sel c s g) as [|tc0 l] eqn:E; [contradiction|].
+  destruct H as [<-|[]]. simpl. split; [discriminate|].
+  intros tc H. apply (batch_cases_inst lib sel c s g). rewrite E. exact H.
+Qed.
+
+Lemma matching_server_proof lib sel order clients servers b :
+  In b (plan lib sel order clients servers) ->
+  b.(b_cases) <> [] /\ forall tc, In tc b.(b_cases) -> inst_of tc = b.(b_inst).
+Proof.
+  unfold plan. generalize 0%nat. induction clients as [|c clients IH]; intros ph H; simpl in H; [contradiction|].
+  apply in_app_or in H. destruct H as [H|H]; [eapply plan_phase_match, H|eapply IH, H].
+Qed.
+
+(* marked names: prefix ++ simple  becomes  prefix ++ marker ++ "/" ++ simple *)
+Lemma strip_prefix_app p s : strip_prefix p (p ++ s) = Some s.
+Proof. induction p as [|x p IH]; simpl; [reflexivity|]. rewrite N.eqb_refl. exact IH. Qed.
+
+Lemma marked_name_proof c s tc prefix :
+  tc.(tc_name) = prefix ++ tc.(tc_simple) ->
+  (rename c s tc).(tc_name) = prefix ++ marker c s ++ 47 :: tc.(tc_simple).
+Proof.
+  intros E. simpl. unfold add_marker, trim_suffix. rewrite E, rev_app_distr, strip_prefix_app, rev_involutive.
+  reflexivity.
+Qed.
+
+(* ====================================================================== *)
+(* B. request completion                                                  *)
+(* ====================================================================== *)
+Lemma request_filled_proof a g sref tc :
+  let r := complete a g sref tc in
+  let nh := (bs "x-test-case-name", [tc.(tc_name)]) in
+  r.(r_name) = tc.(tc_name) /\
+  r.(r_port) = a.(a_port) /\ r.(r_cert) = a.(a_cert) /\
+  r.(r_host) = (if is_empty a.(a_host) then default_host else a.(a_host)) /\ r.(r_host) <> [] /\
+  r.(r_creds) = g.(i_certs) /\
+  exists extra,
+    r.(r_headers) = tc.(tc_headers) ++ nh :: extra /\
+    r.(r_raw) = option_map (fun hs => hs ++ nh :: extra) tc.(tc_raw) /\
+    (sref = false -> extra = []) /\
+    (forall h, In h extra -> has_prefix (bs "x-expect-") (fst h) = true).
+Proof.
+  simpl. repeat split.
+  - destruct (a_host a); simpl; discriminate.
+  - exists (if sref then expect_headers a g tc else []). repeat split.
+    + intros ->; reflexivity.
+    + destruct sref; [|intros h []]. unfold expect_headers. intros h H.
+      apply in_app_or in H. destruct H as [H|H].
+      * simpl in H. repeat (destruct H as [<-|H]; [vm_compute; reflexivity|]). contradiction.
+      * destruct (i_certs g); [|contradiction]. destruct H as [<-|[]]. vm_compute. reflexivity.
+Qed.
+
+(* ====================================================================== *)
+(* C. the transition system: invariants over arbitrary schedules          *)
+(* ====================================================================== *)
+Open Scope nat_scope.
+
+Lemma nth_error_upd_eq {A} (l : list A) k x y : nth_error l k = Some y -> nth_error (upd k x l) k = Some x.
+Proof. revert k; induction l as [|h t IH]; intros [|k] H; simpl in *; try discriminate; auto. Qed.
+
+Lemma nth_error_upd_neq {A} (l : list A) k j x : j <> k -> nth_error (upd k x l) j = nth_error l j.
+Proof.
+  revert k j; induction l as [|h t IH]; intros [|k] [|j] H; simpl; auto; try congruence.
+Qed.
+
+Lemma length_upd {A} (l : list A) k x : length (upd k x l) = length l.
+Proof. revert k; induction l as [|h t IH]; intros [|k]; simpl; auto. Qed.
+
+Lemma map_upd_same {A B} (f : A -> B) l k x y :
+  nth_error l k = Some y -> f x = f y -> map f (upd k x l) = map f l.
+Proof.
+  revert k; induction l as [|h t IH]; intros [|k] H E; simpl in *; try discriminate; auto.
+  - inversion H; subst. rewrite E. reflexivity.
+  - rewrite (IH k H E). reflexivity.
+Qed.
+
+Definition b2n (b : bool) : nat := if b then 1 else 0.
+Fixpoint count_if {A} (f : A -> bool) (l : list A) : nat :=
+  match l with [] => 0 | x :: t => b2n (f x) + count_if f t end.
+
+Lemma count_upd {A} (f : A -> bool) l k x y :
+  nth_error l k = Some y -> count_if f (upd k x l) + b2n (f y) = count_if f l + b2n (f x).
+Proof.
+  revert k; induction l as [|h t IH]; intros [|k] H; simpl in *; try discriminate.
+  - inversion H; subst. lia.
+  - specialize (IH k H). lia.
+Qed.
+
+Lemma count_le {A} (f g : A -> bool) l : (forall x, f x = true -> g x = true) -> count_if f l <= count_if g l.
+Proof.
+  intros I. induction l as [|x t IH]; simpl; [lia|].
+  specialize (I x). destruct (f x), (g x); simpl; try lia; discriminate (I eq_refl).
+Qed.
+
+Lemma count_zero {A} (f : A -> bool) l : (forall x, In x l -> f x = false) -> count_if f l = 0.
+Proof.
+  induction l as [|x t IH]; intros H; simpl; [reflexivity|].
+  rewrite (H x (or_introl eq_refl)), IH; [reflexivity|]. intros; apply H; simpl; auto.
+Qed.
+
+(* statuses *)
+Definition held (st : status) : bool :=
+  match st with Acquired | Spawned | Up _ _ | Failed | Stopped => true | _ => false end.
+Definition alive (st : status) : bool := match st with Spawned | Up _ _ => true | _ => false end.
+Definition is_pending (st : status) : bool := match st with Pending => true | _ => false end.
+
+Lemma remove_nat_in k j l : In j (remove_nat k l) <-> In j l /\ j <> k.
+Proof.
+  induction l as [|h t IH]; simpl; [tauto|].
+  destruct (Nat.eqb_spec h k) as [->|N]; simpl; rewrite IH; intuition congruence.
+Qed.
+
+Lemma remove_nat_nodup k l : NoDup l -> NoDup (remove_nat k l).
+Proof.
+  induction 1 as [|h t NI ND IH]; simpl; [constructor|].
+  destruct (Nat.eqb h k); [exact IH|]. constructor; [|exact IH].
+  rewrite remove_nat_in. tauto.
+Qed.
+
+Lemma remove_nat_notin k l : ~ In k l -> remove_nat k l = l.
+Proof.
+  induction l as [|h t IH]; intros N; simpl; [reflexivity|].
+  destruct (Nat.eqb_spec h k) as [->|_]; [exfalso; apply N; simpl; auto|].
+  rewrite IH; [reflexivity|]. intros H; apply N; simpl; auto.
+Qed.
+
+Lemma remove_nat_length k l : NoDup l -> In k l -> S (length (remove_nat k l)) = length l.
+Proof.
+  induction 1 as [|h t NI ND IH]; intros H; simpl in *; [contradiction|].
+  destruct (Nat.eqb_spec h k) as [->|N].
+  - rewrite remove_nat_notin by exact NI. reflexivity.
+  - destruct H as [H|H]; [congruence|]. simpl. rewrite IH by exact H. reflexivity.
+Qed.
+
+(* what a slot's status says about the history *)
+Definition slot_ok (tr : list event) (k : nat) (sl : slot) : Prop :=
+  let cases := sl.(sl_b).(b_cases) in
+  match sl.(sl_st) with
+  | Pending | Acquired | Spawned =>
+    sent_cases tr k = [] /\ failed_in tr k = false /\ serving tr k = None
+  | Up a rest => sent_cases tr k ++ rest = cases /\ failed_in tr k = false /\ serving tr k = Some a
+  | Failed => sent_cases tr k = [] /\ failed_in tr k = true /\ serving tr k = None
+  | Stopped => sent_cases tr k = cases /\ failed_in tr k = false /\ serving tr k = None
+  | Released =>
+    ((sent_cases tr k = cases /\ failed_in tr k = false) \/ (sent_cases tr k = [] /\ failed_in tr k = true))
+    /\ serving tr k = None
+  end.
+
+Record Inv (max : nat) (p : list batch) (s : state) : Prop := mkInv {
+  inv_batches : map sl_b s.(slots) = p;
+  inv_sem : s.(sem) = count_if (fun sl => held sl.(sl_st)) s.(slots);
+  inv_max : s.(sem) <= max;
+  inv_pc : forall k sl, nth_error s.(slots) k = Some sl -> (is_pending sl.(sl_st) = true <-> s.(pc) <= k);
+  inv_alive_nd : NoDup (alive_list s.(trace));
+  inv_alive_in : forall k, In k (alive_list s.(trace)) <->
+                           exists sl, nth_error s.(slots) k = Some sl /\ alive sl.(sl_st) = true;
+  inv_slots : forall k sl, nth_error s.(slots) k = Some sl -> slot_ok s.(trace) k sl;
+  inv_sends : sends_ok p s.(trace);
+  inv_bounded : always_bounded max s.(trace) }.
+
+Lemma nth_error_set_st s k st j :
+  nth_error (set_st s k st) j =
+  if Nat.eqb j k then option_map (fun sl => mkSlot sl.(sl_b) st) (nth_error s.(slots) k)
+  else nth_error s.(slots) j.
+Proof.
+  unfold set_st. destruct (Nat.eqb_spec j k) as [->|N].
+  - destruct (nth_error (slots s) k) eqn:E; simpl; [|exact E].
+    eapply nth_error_upd_eq, E.
+  - destruct (nth_error (slots s) k); [apply nth_error_upd_neq, N|reflexivity].
+Qed.
+
+Lemma set_st_batches s k st : map sl_b (set_st s k st) = map sl_b s.(slots).
+Proof.
+  unfold set_st. destruct (nth_error (slots s) k) eqn:E; [|reflexivity].
+  eapply map_upd_same; [exact E|reflexivity].
+Qed.
+
+Lemma set_st_count f s k st sl :
+  nth_error s.(slots) k = Some sl ->
+  count_if (fun x => f x.(sl_st)) (set_st s k st) + b2n (f sl.(sl_st))
+  = count_if (fun x => f x.(sl_st)) s.(slots) + b2n (f st).
+Proof.
+  intros E. unfold set_st. rewrite E.
+  apply (count_upd (fun x => f (sl_st x)) _ _ (mkSlot (sl_b sl) st) sl E).
+Qed.
+
+Lemma init_inv max p : Inv max p (init_state p).
+Proof.
+  constructor; simpl.
+  - rewrite map_map. simpl. apply map_id.
+  - symmetry. apply count_zero. intros x H. apply in_map_iff in H. destruct H as (b & <- & _). reflexivity.
+  - lia.
+  - intros k sl H. apply nth_error_In, in_map_iff in H. destruct H as (b & <- & _). simpl.
+    split; [lia|reflexivity].
+  - constructor.
+  - intros k. split; [contradiction|]. intros (sl & H & A).
+    apply nth_error_In, in_map_iff in H. destruct H as (b & <- & _). discriminate.
+  - intros k sl H. apply nth_error_In, in_map_iff in H. destruct H as (b & <- & _).
+    unfold slot_ok; simpl. auto.
+  - exact Logic.I.
+  - exact Logic.I.
+Qed.
+
+(* the history functions do not look at events of other batches *)
+Ltac eqb_neq j k :=
+  let E := fresh "E" in
+  destruct (Nat.eqb_spec j k) as [E|E]; [congruence|]; clear E.
+
+Lemma bounded_cons max e tr :
+  always_bounded max tr -> length (alive_list (e :: tr)) <= max -> always_bounded max (e :: tr).
+Proof. intros A L. split; assumption. Qed.
+
+Lemma bounded_now max tr : always_bounded max tr -> length (alive_list tr) <= max.
+Proof. destruct tr; simpl; [lia|]. intros [B _]. exact B. Qed.
+
+(* A generic step of one slot k from status st to st', adding the events evs (newest first)
+   that concern only batch k. *)
+Section OneSlot.
+  Variables (max : nat) (p : list batch) (s : state) (k : nat) (b : batch) (st st' : status).
+  Hypothesis I : Inv max p s.
+  Hypothesis Hk : nth_error s.(slots) k = Some (mkSlot b st).
+
+  Lemma slot_in_plan : nth_error p k = Some b.
+  Proof.
+    rewrite <- (inv_batches _ _ _ I). rewrite nth_error_map, Hk. reflexivity.
+  Qed.
+
+  Lemma other_slot j sl : j <> k -> nth_error (set_st s k st') j = Some sl -> nth_error s.(slots) j = Some sl.
+  Proof.
+    intros N H. rewrite nth_error_set_st in H. destruct (Nat.eqb_spec j k); [congruence|exact H].
+  Qed.
+
+  Lemma this_slot sl : nth_error (set_st s k st') k = Some sl -> sl = mkSlot b st'.
+  Proof.
+    intros H. rewrite nth_error_set_st, Nat.eqb_refl, Hk in H. simpl in H. congruence.
+  Qed.
+
+  Lemma pc_kept :
+    is_pending st = is_pending st' ->
+    forall j sl, nth_error (set_st s k st') j = Some sl -> (is_pending sl.(sl_st) = true <-> s.(pc) <= j).
+  Proof.
+    intros E j sl H. destruct (Nat.eq_dec j k) as [->|N].
+    - apply this_slot in H. subst sl. simpl. rewrite <- E.
+      apply (inv_pc _ _ _ I k _ Hk).
+    - apply (inv_pc _ _ _ I j sl), other_slot; assumption.
+  Qed.
+
+  Lemma sem_kept : held st = held st' ->
+    s.(sem) = count_if (fun sl => held sl.(sl_st)) (set_st s k st').
+  Proof.
+    intros E. pose proof (set_st_count held s k st' _ Hk) as C. simpl in C.
+    rewrite (inv_sem _ _ _ I), E in *. lia.
+  Qed.
+End OneSlot.
+
+(* ---- the main preservation lemma ---- *)
+Lemma alive_in_set max p s k b st st' :
+  Inv max p s -> nth_error s.(slots) k = Some (mkSlot b st) ->
+  forall l, NoDup l ->
+  (forall j, In j l <-> (j = k /\ alive st' = true) \/ (j <> k /\ In j (alive_list s.(trace)))) ->
+  forall j, In j l <-> exists sl, nth_error (set_st s k st') j = Some sl /\ alive sl.(sl_st) = true.
+Proof.
+  intros I Hk l ND M j. rewrite M. rewrite nth_error_set_st.
+  destruct (Nat.eqb_spec j k) as [->|N].
+  - rewrite Hk. simpl. split.
+    + intros [[_ A]|[N _]]; [|congruence]. eexists; split; [reflexivity|exact A].
+    + intros (sl & E & A). inversion E; subst. left. auto.
+  - rewrite (inv_alive_in _ _ _ I j). split.
+    + intros [[E _]|[_ H]]; [congruence|exact H].
+    + intros H. right. auto.
+Qed.
+
+Lemma slot_ok_other tr k sl evs :
+  slot_ok tr k sl ->
+  sent_cases (evs ++ tr) k = sent_cases tr k ->
+  failed_in (evs ++ tr) k = failed_in tr k ->
+  serving (evs ++ tr) k = serving tr k ->
+  slot_ok (evs ++ tr) k sl.
+Proof. unfold slot_ok. intros H -> -> ->. exact H. Qed.
+
+Lemma step_inv max p s a s' : Inv max p s -> step_opt max s a = Some s' -> Inv max p s'.
+Proof.
+  intros I H. destruct a as [|k|k|k a0|k|k|k n|k|k]; simpl in H.
+  - (* Acquire *)
+    destruct (nth_error (slots s) (pc s)) as [[b st]|] eqn:Hk; [|discriminate].
+    match type of H with context [if ?c then _ else _] => destruct c eqn:C end; [|discriminate].
+    inversion H; subst; clear H. apply andb_true_iff in C. destruct C as [C _].
+    assert (C' : sem s < max) by (revert C; clear; intros C; apply Nat.ltb_lt; exact C). clear C. rename C' into C.
+    assert (P : st = Pending).
+    { pose proof (proj2 (inv_pc _ _ _ I _ _ Hk) (Nat.le_refl _)) as Q. destruct st; simpl in Q; congruence. }
+    subst st.
+    constructor; simpl.
+    + rewrite set_st_batches. apply (inv_batches _ _ _ I).
+    + pose proof (set_st_count held s (pc s) Acquired _ Hk) as Q. simpl in Q.
+      rewrite (inv_sem _ _ _ I). lia.
+    + lia.
+    + intros j sl H. destruct (Nat.eq_dec j (pc s)) as [->|N].
+      * apply (this_slot s (pc s) b Pending Acquired Hk) in H. subst sl. simpl. split; [discriminate|lia].
+      * apply (other_slot s (pc s) Acquired j sl N) in H.
+        rewrite (inv_pc _ _ _ I j sl H). lia.
+    + apply (inv_alive_nd _ _ _ I).
+    + apply (alive_in_set max p s (pc s) b Pending Acquired I Hk _ (inv_alive_nd _ _ _ I)).
+      intros j. simpl. split.
+      * intros H. right. split; [|exact H]. intros ->.
+        apply (inv_alive_in _ _ _ I) in H. destruct H as (sl & E & A). rewrite Hk in E. inversion E; subst. discriminate.
+      * intros [[_ A]|[_ H]]; [discriminate|exact H].
+    + intros j sl H. destruct (Nat.eq_dec j (pc s)) as [->|N].
+      * apply (this_slot s (pc s) b Pending Acquired Hk) in H. subst sl.
+        pose proof (inv_slots _ _ _ I _ _ Hk) as Q. unfold slot_ok in *; simpl in *. exact Q.
+      * apply (other_slot s (pc s) Acquired j sl N) in H.
+        pose proof (inv_slots _ _ _ I _ _ H) as Q. unfold slot_ok in *; simpl in *. exact Q.
+    + split; [exact Logic.I|apply (inv_sends _ _ _ I)].
+    + split; [apply bounded_now|]; apply (inv_bounded _ _ _ I).
+  - (* Spawn *)
+    unfold status_of in H. destruct (nth_error (slots s) k) as [[b st]|] eqn:Hk; simpl in H; [|discriminate].
+    destruct st; try discriminate. inversion H; subst; clear H.
+    assert (NA : ~ In k (alive_list (trace s))).
+    { intros H. apply (inv_alive_in _ _ _ I) in H. destruct H as (sl & E & A). rewrite Hk in E. inversion E; subst. discriminate. }
+    assert (ND : NoDup (k :: alive_list (trace s))) by (constructor; [exact NA|apply (inv_alive_nd _ _ _ I)]).
+    assert (CNT : S (length (alive_list (trace s))) <= max).
+    { (* alive servers are among the held slots, and this one was held without being alive *)
+      pose proof (inv_sem _ _ _ I) as SE. pose proof (inv_max _ _ _ I) as MX.
+      assert (L : length (k :: alive_list (trace s)) <= count_if (fun sl => held (sl_st sl)) (set_st s k Spawned)).
+      { set (sl' := set_st s k Spawned).
+        assert (AL : forall j, In j (k :: alive_list (trace s)) -> exists sl, nth_error sl' j = Some sl /\ alive (sl_st sl) = true).
+        { intros j. apply (alive_in_set max p s k b Acquired Spawned I Hk _ ND).
+          intros j'. simpl. split.
+          - intros [<-|H]; [left; auto|]. right. split; [|exact H]. intros ->. contradiction.
+          - intros [[-> _]|[_ H]]; auto. }
+        clearbody sl'. revert AL ND. generalize (k :: alive_list (trace s)). intros l.
+        revert sl'. induction l as [|j l IHl]; intros sl' AL ND; simpl; [lia|].
+        inversion ND as [|? ? NI ND']; subst.
+        destruct (AL j (or_introl eq_refl)) as (x & E & A).
+        (* remove slot j's contribution by overwriting it with a released slot *)
+        set (sl'' := upd j (mkSlot (sl_b x) Released) sl').
+        assert (C := count_upd (fun sl => held (sl_st sl)) sl' j (mkSlot (sl_b x) Released) x E). simpl in C.
+        assert (HX : held (sl_st x) = true) by (destruct (sl_st x); simpl in *; congruence).
+        rewrite HX in C. simpl in C.
+        specialize (IHl sl''). assert (Q : length l <= count_if (fun sl => held (sl_st sl)) sl'').
+        { apply IHl; [|exact ND']. intros i Hi. destruct (AL i (or_intror Hi)) as (y & Ey & Ay).
+          exists y. split; [|exact Ay]. unfold sl''. rewrite nth_error_upd_neq; [exact Ey|]. intros ->. contradiction. }
+        unfold sl'' in Q. lia. }
+      pose proof (set_st_count held s k Spawned _ Hk) as Q. simpl in Q, L. lia. }
+    constructor; simpl.
+    + rewrite set_st_batches. apply (inv_batches _ _ _ I).
+    + apply (sem_kept max p s k b Acquired Spawned I Hk eq_refl).
+    + apply (inv_max _ _ _ I).
+    + apply (pc_kept max p s k b Acquired Spawned I Hk eq_refl).
+    + exact ND.
+    + apply (alive_in_set max p s k b Acquired Spawned I Hk _ ND).
+      intros j. simpl. split.
+      * intros [<-|H]; [left; auto|]. right. split; [|exact H]. intros ->. contradiction.
+      * intros [[-> _]|[_ H]]; auto.
+    + intros j sl H. destruct (Nat.eq_dec j k) as [->|N].
+      * apply (this_slot s k b Acquired Spawned Hk) in H. subst sl.
+        pose proof (inv_slots _ _ _ I _ _ Hk) as Q. unfold slot_ok in *; simpl in *. exact Q.
+      * apply (other_slot s k Spawned j sl N) in H.
+        pose proof (inv_slots _ _ _ I _ _ H) as Q. unfold slot_ok in *; simpl in *. exact Q.
+    + split; [exact Logic.I|apply (inv_sends _ _ _ I)].
+    + split; [exact CNT|apply (inv_bounded _ _ _ I)].
+  - (* SpawnFail *)
+    unfold status_of in H. destruct (nth_error (slots s) k) as [[b st]|] eqn:Hk; simpl in H; [|discriminate].
+    destruct st; try discriminate. inversion H; subst; clear H.
+    constructor; simpl.
+    + rewrite set_st_batches. apply (inv_batches _ _ _ I).
+    + apply (sem_kept max p s k b Acquired Failed I Hk eq_refl).
+    + apply (inv_max _ _ _ I).
+    + apply (pc_kept max p s k b Acquired Failed I Hk eq_refl).
+    + apply (inv_alive_nd _ _ _ I).
+    + apply (alive_in_set max p s k b Acquired Failed I Hk _ (inv_alive_nd _ _ _ I)).
+      intros j. split.
+      * intros H. right. split; [|exact H]. intros ->.
+        apply (inv_alive_in _ _ _ I) in H. destruct H as (sl & E & A). rewrite Hk in E. inversion E; subst. discriminate.
+      * intros [[_ A]|[_ H]]; [discriminate|exact H].
+    + intros j sl H. destruct (Nat.eq_dec j k) as [->|N].
+      * apply (this_slot s k b Acquired Failed Hk) in H. subst sl.
+        pose proof (inv_slots _ _ _ I _ _ Hk) as Q. unfold slot_ok in *; simpl in *.
+        rewrite Nat.eqb_refl. simpl. tauto.
+      * apply (other_slot s k Failed j sl N) in H.
+        pose proof (inv_slots _ _ _ I _ _ H) as Q. unfold slot_ok in *; simpl in *.
+        destruct (Nat.eqb_spec k j); [congruence|]. exact Q.
+    + split; [exact Logic.I|apply (inv_sends _ _ _ I)].
+    + split; [apply bounded_now|]; apply (inv_bounded _ _ _ I).
+  - (* Ready *)
+    destruct (nth_error (slots s) k) as [[b st]|] eqn:Hk; [|discriminate].
+    destruct st; try discriminate.
+    assert (IA : In k (alive_list (trace s))).
+    { apply (inv_alive_in _ _ _ I). eexists; split; [exact Hk|reflexivity]. }
+    destruct (i_tls (b_inst b) && is_empty (a_cert a0)); inversion H; subst; clear H.
+    + (* TLS without certificate: setup failure, process gone *)
+      constructor; simpl.
+      * rewrite set_st_batches. apply (inv_batches _ _ _ I).
+      * apply (sem_kept max p s k b Spawned Failed I Hk eq_refl).
+      * apply (inv_max _ _ _ I).
+      * apply (pc_kept max p s k b Spawned Failed I Hk eq_refl).
+      * apply remove_nat_nodup, (inv_alive_nd _ _ _ I).
+      * apply (alive_in_set max p s k b Spawned Failed I Hk _ (remove_nat_nodup k _ (inv_alive_nd _ _ _ I))).
+        intros j. rewrite remove_nat_in. split.
+        -- intros [H N]. right. auto.
+        -- intros [[_ A]|[N H]]; [discriminate|auto].
+      * intros j sl H. destruct (Nat.eq_dec j k) as [->|N].
+        -- apply (this_slot s k b Spawned Failed Hk) in H. subst sl.
+           pose proof (inv_slots _ _ _ I _ _ Hk) as Q. unfold slot_ok in *; simpl in *.
+           rewrite Nat.eqb_refl. simpl. tauto.
+        -- apply (other_slot s k Failed j sl N) in H.
+           pose proof (inv_slots _ _ _ I _ _ H) as Q. unfold slot_ok in *; simpl in *.
+           destruct (Nat.eqb_spec k j); [congruence|]. exact Q.
+      * split; [exact Logic.I|]. split; [exact Logic.I|apply (inv_sends _ _ _ I)].
+      * pose proof (inv_bounded _ _ _ I) as B. pose proof (bounded_now _ _ B) as L.
+      pose proof (remove_nat_length k _ (inv_alive_nd _ _ _ I) IA) as RL.
+      repeat split; try exact B; lia.
+    + constructor; simpl.
+      * rewrite set_st_batches. apply (inv_batches _ _ _ I).
+      * apply (sem_kept max p s k b Spawned (Up a0 (b_cases b)) I Hk eq_refl).
+      * apply (inv_max _ _ _ I).
+      * apply (pc_kept max p s k b Spawned (Up a0 (b_cases b)) I Hk eq_refl).
+      * apply (inv_alive_nd _ _ _ I).
+      * apply (alive_in_set max p s k b Spawned (Up a0 (b_cases b)) I Hk _ (inv_alive_nd _ _ _ I)).
+        intros j. split.
+        -- intros H. destruct (Nat.eq_dec j k) as [->|N]; [left; auto|right; auto].
+        -- intros [[-> _]|[_ H]]; auto.
+      * intros j sl H. destruct (Nat.eq_dec j k) as [->|N].
+        -- apply (this_slot s k b Spawned (Up a0 (b_cases b)) Hk) in H. subst sl.
+           pose proof (inv_slots _ _ _ I _ _ Hk) as Q. unfold slot_ok in *; simpl in *.
+           rewrite Nat.eqb_refl. destruct Q as (Q1 & Q2 & Q3). rewrite Q1. auto.
+        -- apply (other_slot s k (Up a0 (b_cases b)) j sl N) in H.
+           pose proof (inv_slots _ _ _ I _ _ H) as Q. unfold slot_ok in *; simpl in *.
+           destruct (Nat.eqb_spec k j); [congruence|]. exact Q.
+      * split; [exact Logic.I|apply (inv_sends _ _ _ I)].
+      * split; [apply bounded_now|]; apply (inv_bounded _ _ _ I).
+  - (* Die *)
+    unfold status_of in H. destruct (nth_error (slots s) k) as [[b st]|] eqn:Hk; simpl in H; [|discriminate].
+    destruct st; try discriminate. inversion H; subst; clear H.
+    assert (IA : In k (alive_list (trace s))).
+    { apply (inv_alive_in _ _ _ I). eexists; split; [exact Hk|reflexivity]. }
+    constructor; simpl.
+    + rewrite set_st_batches. apply (inv_batches _ _ _ I).
+    + apply (sem_kept max p s k b Spawned Failed I Hk eq_refl).
+    + apply (inv_max _ _ _ I).
+    + apply (pc_kept max p s k b Spawned Failed I Hk eq_refl).
+    + apply remove_nat_nodup, (inv_alive_nd _ _ _ I).
+    + apply (alive_in_set max p s k b Spawned Failed I Hk _ (remove_nat_nodup k _ (inv_alive_nd _ _ _ I))).
+      intros j. rewrite remove_nat_in. split.
+      * intros [H N]. right. auto.
+      * intros [[_ A]|[N H]]; [discriminate|auto].
+    + intros j sl H. destruct (Nat.eq_dec j k) as [->|N].
+      * apply (this_slot s k b Spawned Failed Hk) in H. subst sl.
+        pose proof (inv_slots _ _ _ I _ _ Hk) as Q. unfold slot_ok in *; simpl in *.
+        rewrite Nat.eqb_refl. simpl. tauto.
+      * apply (other_slot s k Failed j sl N) in H.
+        pose proof (inv_slots _ _ _ I _ _ H) as Q. unfold slot_ok in *; simpl in *.
+        destruct (Nat.eqb_spec k j); [congruence|]. exact Q.
+    + split; [exact Logic.I|]. split; [exact Logic.I|apply (inv_sends _ _ _ I)].
+    + pose proof (inv_bounded _ _ _ I) as B. pose proof (bounded_now _ _ B) as L.
+      pose proof (remove_nat_length k _ (inv_alive_nd _ _ _ I) IA) as RL.
+      repeat split; try exact B; lia.
+  - (* Send *)
+    destruct (nth_error (slots s) k) as [[b st]|] eqn:Hk; [|discriminate].
+    destruct st as [| | |a0 rest| | |]; try discriminate. destruct rest as [|tc rest]; [discriminate|].
+    inversion H; subst; clear H.
+    pose proof (inv_slots _ _ _ I _ _ Hk) as Q0. unfold slot_ok in Q0; simpl in Q0. destruct Q0 as (Q1 & Q2 & Q3).
+    constructor; simpl.
+    + rewrite set_st_batches. apply (inv_batches _ _ _ I).
+    + apply (sem_kept max p s k b (Up a0 (tc :: rest)) (Up a0 rest) I Hk eq_refl).
+    + apply (inv_max _ _ _ I).
+    + apply (pc_kept max p s k b (Up a0 (tc :: rest)) (Up a0 rest) I Hk eq_refl).
+    + apply (inv_alive_nd _ _ _ I).
+    + apply (alive_in_set max p s k b (Up a0 (tc :: rest)) (Up a0 rest) I Hk _ (inv_alive_nd _ _ _ I)).
+      intros j. split.
+      * intros H. destruct (Nat.eq_dec j k) as [->|N]; [left; auto|right; auto].
+      * intros [[-> _]|[_ H]]; [|exact H].
+        apply (inv_alive_in _ _ _ I). eexists; split; [exact Hk|reflexivity].
+    + intros j sl H. destruct (Nat.eq_dec j k) as [->|N].
+      * apply (this_slot s k b (Up a0 (tc :: rest)) (Up a0 rest) Hk) in H. subst sl.
+        unfold slot_ok; simpl. rewrite Nat.eqb_refl. rewrite <- app_assoc. simpl. auto.
+      * apply (other_slot s k (Up a0 rest) j sl N) in H.
+        pose proof (inv_slots _ _ _ I _ _ H) as Q. unfold slot_ok in *; simpl in *.
+        destruct (Nat.eqb_spec k j); [congruence|]. exact Q.
+    + split; [|apply (inv_sends _ _ _ I)].
+      exists b, a0. split; [apply (slot_in_plan max p s k b _ I Hk)|]. split; [exact Q3|]. split; [|reflexivity].
+      rewrite <- Q1. apply in_or_app. right. simpl. auto.
+    + split; [apply bounded_now|]; apply (inv_bounded _ _ _ I).
+  - (* Answer *)
+    destruct (existsb (pair_eqb (k, n)) (outst s)); [|discriminate]. inversion H; subst; clear H.
+    constructor; simpl.
+    + apply (inv_batches _ _ _ I).
+    + apply (inv_sem _ _ _ I).
+    + apply (inv_max _ _ _ I).
+    + apply (inv_pc _ _ _ I).
+    + apply (inv_alive_nd _ _ _ I).
+    + apply (inv_alive_in _ _ _ I).
+    + intros j sl H. pose proof (inv_slots _ _ _ I _ _ H) as Q. unfold slot_ok in *; simpl in *. exact Q.
+    + split; [exact Logic.I|apply (inv_sends _ _ _ I)].
+    + split; [apply bounded_now|]; apply (inv_bounded _ _ _ I).
+  - (* Stop *)
+    unfold status_of in H. destruct (nth_error (slots s) k) as [[b st]|] eqn:Hk; simpl in H; [|discriminate].
+    destruct st as [| | |a0 rest| | |]; try discriminate. destruct rest; [|discriminate].
+    destruct (has_outst k (outst s)); [discriminate|]. inversion H; subst; clear H.
+    assert (IA : In k (alive_list (trace s))).
+    { apply (inv_alive_in _ _ _ I). eexists; split; [exact Hk|reflexivity]. }
+    constructor; simpl.
+    + rewrite set_st_batches. apply (inv_batches _ _ _ I).
+    + apply (sem_kept max p s k b (Up a0 []) Stopped I Hk eq_refl).
+    + apply (inv_max _ _ _ I).
+    + apply (pc_kept max p s k b (Up a0 []) Stopped I Hk eq_refl).
+    + apply remove_nat_nodup, (inv_alive_nd _ _ _ I).
+    + apply (alive_in_set max p s k b (Up a0 []) Stopped I Hk _ (remove_nat_nodup k _ (inv_alive_nd _ _ _ I))).
+      intros j. rewrite remove_nat_in. split.
+      * intros [H N]. right. auto.
+      * intros [[_ A]|[N H]]; [discriminate|auto].
+    + intros j sl H. destruct (Nat.eq_dec j k) as [->|N].
+      * apply (this_slot s k b (Up a0 []) Stopped Hk) in H. subst sl.
+        pose proof (inv_slots _ _ _ I _ _ Hk) as Q. unfold slot_ok in *; simpl in *.
+        rewrite Nat.eqb_refl. rewrite app_nil_r in Q. tauto.
+      * apply (other_slot s k Stopped j sl N) in H.
+        pose proof (inv_slots _ _ _ I _ _ H) as Q. unfold slot_ok in *; simpl in *.
+        destruct (Nat.eqb_spec k j); [congruence|]. exact Q.
+    + split; [exact Logic.I|apply (inv_sends _ _ _ I)].
+    + pose proof (inv_bounded _ _ _ I) as B. pose proof (bounded_now _ _ B) as L.
+      pose proof (remove_nat_length k _ (inv_alive_nd _ _ _ I) IA) as RL.
+      repeat split; try exact B; lia.
+  - (* Release *)
+    unfold status_of in H. destruct (nth_error (slots s) k) as [[b st]|] eqn:Hk; simpl in H; [|discriminate].
+    assert (HS : (st = Failed \/ st = Stopped) /\
+                 s' = mkSt (set_st s k Released) (pred (sem s)) (pc s) (outst s) (ERel k :: trace s)).
+    { destruct st; try discriminate; inversion H; auto. }
+    clear H. destruct HS as [HS ->].
+    assert (NA : ~ In k (alive_list (trace s))).
+    { intros H. apply (inv_alive_in _ _ _ I) in H. destruct H as (sl & E & A). rewrite Hk in E. inversion E; subst.
+      destruct HS as [-> | ->]; discriminate. }
+    constructor; simpl.
+    + rewrite set_st_batches. apply (inv_batches _ _ _ I).
+    + pose proof (set_st_count held s k Released _ Hk) as Q. simpl in Q.
+      rewrite (inv_sem _ _ _ I). destruct HS as [-> | ->]; simpl in Q; lia.
+    + pose proof (inv_max _ _ _ I). lia.
+    + apply (pc_kept max p s k b st Released I Hk). destruct HS as [-> | ->]; reflexivity.
+    + apply (inv_alive_nd _ _ _ I).
+    + apply (alive_in_set max p s k b st Released I Hk _ (inv_alive_nd _ _ _ I)).
+      intros j. split.
+      * intros H. right. split; [|exact H]. intros ->. contradiction.
+      * intros [[_ A]|[_ H]]; [discriminate|exact H].
+    + intros j sl H. destruct (Nat.eq_dec j k) as [->|N].
+      * apply (this_slot s k b st Released Hk) in H. subst sl.
+        pose proof (inv_slots _ _ _ I _ _ Hk) as Q. unfold slot_ok in *; simpl in *.
+        destruct HS as [-> | ->]; simpl in Q; tauto.
+      * apply (other_slot s k Released j sl N) in H.
+        pose proof (inv_slots _ _ _ I _ _ H) as Q. unfold slot_ok in *; simpl in *. exact Q.
+    + split; [exact Logic.I|apply (inv_sends _ _ _ I)].
+    + split; [apply bounded_now|]; apply (inv_bounded _ _ _ I).
+Qed.
+
+Lemma run_from_inv max p acts : forall s, Inv max p s -> Inv max p (run_from max s acts).
+Proof.
+  induction acts as [|a acts IH]; intros s I; simpl; [exact I|].
+  apply IH. unfold step. destruct (step_opt max s a) eqn:E; [eapply step_inv; eassumption|exact I].
+Qed.
+
+Lemma run_inv max p acts : Inv max p (run_sched max p acts).
+Proof. apply run_from_inv, init_inv. Qed.
+
+(* ---------- the theorems about histories ---------- *)
+Lemma bounded_proof max p acts : always_bounded max (run_sched max p acts).(trace).
+Proof. apply (inv_bounded _ _ _ (run_inv max p acts)). Qed.
+
+Lemma max_alive_le max tr : always_bounded max tr -> max_alive tr <= max.
+Proof.
+  induction tr as [|e tr IH]; [simpl; lia|]. intros [B R].
+  change (Nat.max (length (alive_list (e :: tr))) (max_alive tr) <= max).
+  specialize (IH R). lia.
+Qed.
+
+Lemma max_alive_proof max p acts : max_alive (run_sched max p acts).(trace) <= max.
+Proof. apply max_alive_le, bounded_proof. Qed.
+
+Lemma send_while_serving_proof max p acts : sends_ok p (run_sched max p acts).(trace).
+Proof. apply (inv_sends _ _ _ (run_inv max p acts)). Qed.
+
+Lemma slot_of_batch max p s k b :
+  Inv max p s -> nth_error p k = Some b -> exists st, nth_error s.(slots) k = Some (mkSlot b st).
+Proof.
+  intros I H. rewrite <- (inv_batches _ _ _ I), nth_error_map in H.
+  destruct (nth_error (slots s) k) as [[b' st]|]; simpl in H; [|discriminate].
+  inversion H; subst. exists st; reflexivity.
+Qed.
+
+Lemma terminal_released s k sl : terminal s = true -> nth_error s.(slots) k = Some sl -> sl.(sl_st) = Released.
+Proof.
+  unfold terminal. intros T H. rewrite forallb_forall in T. specialize (T sl (nth_error_In _ _ H)).
+  destruct (sl_st sl); simpl in T; congruence.
+Qed.
+
+Lemma exactly_once_proof max p acts k b :
+  let s := run_sched max p acts in
+  terminal s = true -> nth_error p k = Some b ->
+  (sent_cases s.(trace) k = b.(b_cases) /\ failed_in s.(trace) k = false) \/
+  (sent_cases s.(trace) k = [] /\ failed_in s.(trace) k = true).
+Proof.
+  intros s T H. pose proof (run_inv max p acts) as I. fold s in I.
+  destruct (slot_of_batch _ _ _ _ _ I H) as (st & E).
+  pose proof (terminal_released _ _ _ T E) as R. simpl in R. subst st.
+  pose proof (inv_slots _ _ _ I _ _ E) as Q. unfold slot_ok in Q; simpl in Q. tauto.
+Qed.
+
+(* at any moment: what has been sent for a batch is a prefix of its permutations, in order (so
+   nothing is sent twice and nothing foreign is sent), and nothing is sent for a failed batch *)
+Lemma never_twice_proof max p acts k b :
+  let s := run_sched max p acts in
+  nth_error p k = Some b ->
+  (exists rest, sent_cases s.(trace) k ++ rest = b.(b_cases)) /\
+  (failed_in s.(trace) k = true -> sent_cases s.(trace) k = []).
+Proof.
+  intros s H. pose proof (run_inv max p acts) as I. fold s in I.
+  destruct (slot_of_batch _ _ _ _ _ I H) as (st & E).
+  pose proof (inv_slots _ _ _ I _ _ E) as Q. unfold slot_ok in Q; simpl in Q.
+  destruct st; simpl in Q.
+  - destruct Q as (-> & -> & _). split; [eexists; reflexivity|discriminate].
+  - destruct Q as (-> & -> & _). split; [eexists; reflexivity|discriminate].
+  - destruct Q as (-> & -> & _). split; [eexists; reflexivity|discriminate].
+  - destruct Q as (Q & -> & _). split; [eexists; exact Q|discriminate].
+  - destruct Q as (-> & _ & _). split; [eexists; reflexivity|reflexivity].
+  - destruct Q as (-> & -> & _). split; [exists []; apply app_nil_r|discriminate].
+  - destruct Q as ([(-> & ->)|(-> & _)] & _).
+    + split; [exists []; apply app_nil_r|discriminate].
+    + split; [eexists; reflexivity|reflexivity].
+Qed.
+
+Lemma all_stopped_proof max p acts :
+  let s := run_sched max p acts in terminal s = true -> alive_list s.(trace) = [].
+Proof.
+  intros s T. pose proof (run_inv max p acts) as I. fold s in I.
+  destruct (alive_list (trace s)) as [|k l] eqn:E; [reflexivity|].
+  assert (H : In k (alive_list (trace s))) by (rewrite E; simpl; auto).
+  apply (inv_alive_in _ _ _ I) in H. destruct H as (sl & H & A).
+  rewrite (terminal_released _ _ _ T H) in A. discriminate.
+Qed.
+
+(* ---------- termination ---------- *)
+Definition sumw (l : list slot) : nat := fold_right (fun sl acc => weight sl + acc) 0 l.
+Local Arguments weight : simpl never.
+
+Lemma sumw_upd l k x y : nth_error l k = Some y -> sumw (upd k x l) + weight y = sumw l + weight x.
+Proof.
+  revert k; induction l as [|h t IH]; intros [|k] H; simpl in *; try discriminate.
+  - inversion H; subst. lia.
+  - specialize (IH k H). fold (sumw t) in *. fold (sumw (upd k x t)) in *. lia.
+Qed.
+
+Lemma sumw_set s k b st st' :
+  nth_error s.(slots) k = Some (mkSlot b st) ->
+  sumw (set_st s k st') + weight (mkSlot b st) = sumw s.(slots) + weight (mkSlot b st').
+Proof. intros E. unfold set_st. rewrite E. apply (sumw_upd _ _ _ _ E). Qed.
+
+Lemma remove_one_length x l : existsb (pair_eqb x) l = true -> S (length (remove_one x l)) = length l.
+Proof.
+  induction l as [|y t IH]; simpl; [discriminate|].
+  destruct (pair_eqb x y); simpl; [reflexivity|]. intros H. rewrite IH by exact H. reflexivity.
+Qed.
+
+Lemma measure_decreases_proof max p s a s' :
+  Inv max p s -> step_opt max s a = Some s' -> measure s' < measure s.
+Proof.
+  unfold measure. fold (sumw (slots s)). fold (sumw (slots s')).
+  intros I H. destruct a as [|k|k|k a0|k|k|k n|k|k]; simpl in H.
+  - destruct (nth_error (slots s) (pc s)) as [[b st]|] eqn:Hk; [|discriminate].
+    match type of H with context [if ?c then _ else _] => destruct c eqn:C end; [|discriminate].
+    inversion H; subst; clear H; simpl.
+    assert (P : st = Pending).
+    { pose proof (proj2 (inv_pc _ _ _ I _ _ Hk) (Nat.le_refl _)) as Q. destruct st; simpl in Q; congruence. }
+    subst st. pose proof (sumw_set s (pc s) b Pending Acquired Hk) as Q. unfold weight in Q; simpl in Q. lia.
+  - unfold status_of in H. destruct (nth_error (slots s) k) as [[b st]|] eqn:Hk; simpl in H; [|discriminate].
+    destruct st; try discriminate. inversion H; subst; clear H; simpl.
+    pose proof (sumw_set s k b Acquired Spawned Hk) as Q. unfold weight in Q; simpl in Q. lia.
+  - unfold status_of in H. destruct (nth_error (slots s) k) as [[b st]|] eqn:Hk; simpl in H; [|discriminate].
+    destruct st; try discriminate. inversion H; subst; clear H; simpl.
+    pose proof (sumw_set s k b Acquired Failed Hk) as Q. unfold weight in Q; simpl in Q. lia.
+  - destruct (nth_error (slots s) k) as [[b st]|] eqn:Hk; [|discriminate].
+    destruct st; try discriminate.
+    destruct (i_tls (b_inst b) && is_empty (a_cert a0)); inversion H; subst; clear H; simpl.
+    + pose proof (sumw_set s k b Spawned Failed Hk) as Q. unfold weight in Q; simpl in Q. lia.
+    + pose proof (sumw_set s k b Spawned (Up a0 (b_cases b)) Hk) as Q. unfold weight in Q; simpl in Q. lia.
+  - unfold status_of in H. destruct (nth_error (slots s) k) as [[b st]|] eqn:Hk; simpl in H; [|discriminate].
+    destruct st; try discriminate. inversion H; subst; clear H; simpl.
+    pose proof (sumw_set s k b Spawned Failed Hk) as Q. unfold weight in Q; simpl in Q. lia.
+  - destruct (nth_error (slots s) k) as [[b st]|] eqn:Hk; [|discriminate].
+    destruct st as [| | |a1 rest| | |]; try discriminate. destruct rest as [|tc rest]; [discriminate|].
+    inversion H; subst; clear H; simpl.
+    pose proof (sumw_set s k b (Up a1 (tc :: rest)) (Up a1 rest) Hk) as Q. unfold weight in Q; simpl in Q. lia.
+  - destruct (existsb (pair_eqb (k, n)) (outst s)) eqn:E; [|discriminate]. inversion H; subst; clear H; simpl.
+    pose proof (remove_one_length _ _ E). lia.
+  - unfold status_of in H. destruct (nth_error (slots s) k) as [[b st]|] eqn:Hk; simpl in H; [|discriminate].
+    destruct st as [| | |a1 rest| | |]; try discriminate. destruct rest; [|discriminate].
+    destruct (has_outst k (outst s)); [discriminate|]. inversion H; subst; clear H; simpl.
+    pose proof (sumw_set s k b (Up a1 []) Stopped Hk) as Q. unfold weight in Q; simpl in Q. lia.
+  - unfold status_of in H. destruct (nth_error (slots s) k) as [[b st]|] eqn:Hk; simpl in H; [|discriminate].
+    destruct st; try discriminate; inversion H; subst; clear H; simpl.
+    + pose proof (sumw_set s k b Failed Released Hk) as Q. unfold weight in Q; simpl in Q. lia.
+    + pose proof (sumw_set s k b Stopped Released Hk) as Q. unfold weight in Q; simpl in Q. lia.
+Qed.
+
+(* no schedule, however long, contains more enabled actions than the initial measure *)
+Lemma schedule_bound_from max p acts : forall s,
+  Inv max p s -> effective max s acts + measure (run_from max s acts) <= measure s.
+Proof.
+  induction acts as [|a acts IH]; intros s I; simpl; [lia|].
+  unfold step. destruct (step_opt max s a) as [s'|] eqn:E.
+  - pose proof (measure_decreases_proof _ _ _ _ _ I E). specialize (IH s' (step_inv _ _ _ _ _ I E)). lia.
+  - apply IH, I.
+Qed.
+
+Lemma schedule_bound_proof max p acts :
+  effective max (init_state p) acts + measure (run_sched max p acts) <= measure (init_state p).
+Proof. apply (schedule_bound_from max p), init_inv. Qed.
+
+(* ... and a state that is not final always has an enabled action *)
+Lemma find_or_none {A} (P : A -> bool) (l : list A) :
+  (exists k x, nth_error l k = Some x /\ P x = true) \/ (forall x, In x l -> P x = false).
+Proof.
+  induction l as [|h t IH]; [right; intros x []|].
+  destruct (P h) eqn:E; [left; exists 0, h; auto|].
+  destruct IH as [(k & x & H & Q)|N]; [left; exists (S k), x; auto|].
+  right. intros x [<-|H]; auto.
+Qed.
+
+Lemma forallb_false {A} (f : A -> bool) l : forallb f l = false -> exists x, In x l /\ f x = false.
+Proof.
+  induction l as [|h t IH]; simpl; [discriminate|].
+  destruct (f h) eqn:E; simpl; [|intros _; exists h; auto].
+  intros H. destruct (IH H) as (x & I & Q). exists x; auto.
+Qed.
+
+Lemma firstn_nth {A} (l : list A) : forall n x, In x (firstn n l) -> exists j, j < n /\ nth_error l j = Some x.
+Proof.
+  induction l as [|h t IH]; intros [|n] x H; simpl in H; try contradiction.
+  destruct H as [<-|H]; [exists 0; split; [lia|reflexivity]|].
+  destruct (IH n x H) as (j & L & E). exists (S j); split; [lia|exact E].
+Qed.
+
+Definition active (st : status) : bool :=
+  match st with Pending | Released => false | _ => true end.
+
+Lemma pair_eqb_refl x : pair_eqb x x = true.
+Proof. unfold pair_eqb. rewrite Nat.eqb_refl, bytes_eqb_refl. reflexivity. Qed.
+
+Lemma no_deadlock_proof max p s :
+  1 <= max -> Inv max p s -> terminal s = false -> exists a s', step_opt max s a = Some s'.
+Proof.
+  intros M I T.
+  destruct (outst s) as [|[k n] o] eqn:O.
+  2:{ exists (Answer k n). simpl. rewrite O. simpl. rewrite pair_eqb_refl. simpl. eexists; reflexivity. }
+  destruct (find_or_none (fun sl => active (sl_st sl)) (slots s)) as [(k & [b st] & E & A)|N].
+  - simpl in A. destruct st as [| | |a rest| | |]; try discriminate.
+    + exists (Spawn k). unfold step_opt, status_of. rewrite E. simpl. eexists; reflexivity.
+    + exists (Die k). unfold step_opt, status_of. rewrite E. simpl. eexists; reflexivity.
+    + destruct rest as [|tc rest].
+      * exists (Stop k). unfold step_opt, status_of. rewrite E, O. simpl. eexists; reflexivity.
+      * exists (Send k). unfold step_opt. rewrite E. eexists; reflexivity.
+    + exists (Release k). unfold step_opt, status_of. rewrite E. simpl. eexists; reflexivity.
+    + exists (Release k). unfold step_opt, status_of. rewrite E. simpl. eexists; reflexivity.
+  - (* every slot is Pending or Released *)
+    unfold terminal in T. apply forallb_false in T. destruct T as (sl & HI & NR).
+    apply In_nth_error in HI. destruct HI as (k & E).
+    assert (PK : is_pending (sl_st sl) = true).
+    { pose proof (N sl (nth_error_In _ _ E)) as Q. simpl in Q. destruct (sl_st sl); simpl in *; congruence. }
+    apply (inv_pc _ _ _ I k sl E) in PK.
+    assert (LT : pc s < length (slots s)).
+    { assert (k < length (slots s)) by (apply nth_error_Some; congruence). lia. }
+    destruct (nth_error (slots s) (pc s)) as [[b st]|] eqn:EP; [|apply nth_error_None in EP; lia].
+    exists Acquire. unfold step_opt. rewrite EP.
+    assert (S0 : sem s = 0).
+    { rewrite (inv_sem _ _ _ I). apply count_zero. intros x Hx. specialize (N x Hx). simpl in N.
+      destruct (sl_st x); simpl in *; congruence. }
+    assert (PH : phase_ok s b = true).
+    { unfold phase_ok. apply forallb_forall. intros x Hx.
+      apply firstn_nth in Hx. destruct Hx as (j & L & Ej).
+      pose proof (N x (nth_error_In _ _ Ej)) as Q. simpl in Q.
+      pose proof (inv_pc _ _ _ I j x Ej) as PC.
+      destruct (sl_st x); simpl in *; try congruence; [|apply orb_true_r].
+      assert (pc s <= j) by (apply PC; reflexivity). lia. }
+    simpl. rewrite PH, S0. destruct max; [lia|]. simpl. eexists; reflexivity.
+Qed.
+
+Lemma progress_proof max p acts :
+  1 <= max -> let s := run_sched max p acts in
+  terminal s = false -> exists a s', step_opt max s a = Some s'.
+Proof. intros M s. apply (no_deadlock_proof max p s M), run_inv. Qed.
+
+Lemma measure_step_proof max p acts a s' :
+  step_opt max (run_sched max p acts) a = Some s' -> measure s' < measure (run_sched max p acts).
+Proof. apply (measure_decreases_proof max p), run_inv. Qed.
+
+(* ---------- the scheduler used for the correspondence runs follows a schedule ---------- *)
+Lemma run_from_snoc max s0 acc a :
+  run_from max s0 (rev (a :: acc)) = step max (run_from max s0 (rev acc)) a.
+Proof. unfold run_from. simpl. rewrite fold_left_app. reflexivity. Qed.
+
+Lemma settle_sched max missing s0 : forall fuel s acc s' acc',
+  s = run_from max s0 (rev acc) -> settle fuel max missing s acc = (s', acc') ->
+  s' = run_from max s0 (rev acc').
+Proof.
+  induction fuel as [|f IH]; intros s acc s' acc' E H; simpl in H.
+  - inversion H; subst; reflexivity.
+  - destruct (internal_action max missing s) as [a|].
+    + eapply IH; [|exact H]. rewrite run_from_snoc, <- E. reflexivity.
+    + inversion H; subst; reflexivity.
+Qed.
+
+Lemma move_sched max ds s0 s acc m :
+  s = run_from max s0 (rev acc) ->
+  let '(s1, acc1) := match move_action ds s m with
+                     | Some a => (step max s a, a :: acc)
+                     | None => (s, acc)
+                     end in
+  s1 = run_from max s0 (rev acc1).
+Proof.
+  intros E. destruct (move_action ds s m) as [a|]; [|exact E].
+  rewrite run_from_snoc, <- E. reflexivity.
+Qed.
+
+Lemma play_cons max missing ds s acc m r :
+  play max missing ds s acc (m :: r) =
+    let '(s1, acc1) := match move_action ds s m with
+                       | Some a => (step max s a, a :: acc)
+                       | None => (s, acc)
+                       end in
+    let '(s2, acc2) := settle (S (measure s1)) max missing s1 acc1 in
+    let '(s3, acc3, sn) := play max missing ds s2 acc2 r in
+    (s3, acc3, snap s2 :: sn).
+Proof. reflexivity. Qed.
+
+Lemma drain_S max missing ds f s acc :
+  drain (S f) max missing ds s acc =
+    match drain_move s with
+    | None => (s, acc)
+    | Some m =>
+      let '(s1, acc1) := match move_action ds s m with
+                         | Some a => (step max s a, a :: acc)
+                         | None => (s, acc)
+                         end in
+      let '(s2, acc2) := settle (S (measure s1)) max missing s1 acc1 in
+      drain f max missing ds s2 acc2
+    end.
+Proof. reflexivity. Qed.
+
+Lemma play_sched max missing ds s0 : forall script s acc s' acc' sn,
+  s = run_from max s0 (rev acc) -> play max missing ds s acc script = (s', acc', sn) ->
+  s' = run_from max s0 (rev acc').
+Proof.
+  induction script as [|m r IH]; intros s acc s' acc' sn E H.
+  - simpl in H. inversion H; subst; reflexivity.
+  - rewrite play_cons in H. pose proof (move_sched max ds s0 s acc m E) as M.
+    destruct (match move_action ds s m with Some a => (step max s a, a :: acc) | None => (s, acc) end) as [s1 acc1].
+    destruct (settle (S (measure s1)) max missing s1 acc1) as [s2 acc2] eqn:S2.
+    pose proof (settle_sched max missing s0 _ _ _ _ _ M S2) as E2.
+    destruct (play max missing ds s2 acc2 r) as [[s3 acc3] sn3] eqn:P3.
+    injection H as <- <- <-. eapply IH; [exact E2|exact P3].
+Qed.
+
+Lemma drain_sched max missing ds s0 : forall fuel s acc s' acc',
+  s = run_from max s0 (rev acc) -> drain fuel max missing ds s acc = (s', acc') ->
+  s' = run_from max s0 (rev acc').
+Proof.
+  induction fuel as [|f IH]; intros s acc s' acc' E H.
+  - simpl in H. inversion H; subst; reflexivity.
+  - rewrite drain_S in H. destruct (drain_move s) as [m|]; [|inversion H; subst; reflexivity].
+    pose proof (move_sched max ds s0 s acc m E) as M.
+    destruct (match move_action ds s m with Some a => (step max s a, a :: acc) | None => (s, acc) end) as [s1 acc1].
+    destruct (settle (S (measure s1)) max missing s1 acc1) as [s2 acc2] eqn:S2.
+    pose proof (settle_sched max missing s0 _ _ _ _ _ M S2) as E2.
+    eapply IH; [exact E2|exact H].
+Qed.
+
+Lemma scripted_is_schedule_proof max missing ds p script :
+  let '(s, acts, _) := scripted max missing ds p script in s = run_sched max p acts.
+Proof.
+  unfold scripted, run_sched.
+  destruct (settle (S (measure (init_state p))) max missing (init_state p) []) as [s1 acc1] eqn:S1.
+  assert (E1 : s1 = run_from max (init_state p) (rev acc1)).
+  { eapply settle_sched; [|exact S1]. reflexivity. }
+  destruct (play max missing ds s1 acc1 script) as [[s2 acc2] sn] eqn:P2.
+  pose proof (play_sched max missing ds _ _ _ _ _ _ _ E1 P2) as E2.
+  destruct (drain (S (measure s2)) max missing ds s2 acc2) as [s3 acc3] eqn:D3.
+  apply (drain_sched max missing ds _ _ _ _ _ _ E2 D3).
+Qed.
